@@ -45,6 +45,7 @@ SCENARIOS = [
     ("nested-mixed-patterns", "type T = | S Int | N\nlet { eff } = import! host\nmatch { a = S (eff 1), b = (2, N) } with\n"
                               "| { a = S 2, b } -> 0\n| { a = S k, b = (m, S _) } -> 1\n| { a = S k, b = (m, N) } -> k + m\n| _ -> 9\n"),
     ("open-row-after-let-projection", "(((\\v1 -> (let v2 = (v1).x in v1)) { x = 1 })).y\n"),
+    ("projection-of-identity-application", "((\\v1 -> v1) { x = 1 }).x\n"),
     ("rec-group-of-functions", "rec let ev n : Int -> Int = if n == 0 then 1 else od (n - 1)\nlet od n : Int -> Int = if n == 0 then 0 else ev (n - 1)\nev 10\n"),
     ("nested-patterns-total", "type T = | S Int | N\nmatch { a = S 1, b = (2, N) } with\n| { a = S k, b = (m, _) } -> k + m\n| { a = N, b = _ } -> 0\n"),
 ]
